@@ -149,9 +149,9 @@ def main(ctx, args):
         bst, bout = basel.get((c["prog_id"], c["backend"]), ("?", "?"))
         stats["evaluations"] += 1
         if c["prog_id"].startswith("gated") and c["backend"] == "wasm" and basel.get((c["prog_id"], "vm")) != (bst, bout):
-            # a stateful call inside an `if` arm is miscompiled for WASM in some shapes (findings F3/F4 of C01/C05): the
-            # family is judged on WASM only where its uninterrupted run equals the VM's
-            stats["gated_wasm_skipped_F4"] += 1
+            # a stateful call inside an `if` arm (finding F3, repaired): the uninterrupted WASM run must be the VM's
+            stats["gated_wasm_base_differs_from_vm"] += 1
+            failures.append((c, f"gated family: the uninterrupted WASM run differs from the VM's: {bst[:80]}", basel.get((c["prog_id"], "vm"))[1], bout))
             continue
         if not bst.startswith("ok"):
             stats["base_not_ok_" + bst.split(" ")[0]] += 1
